@@ -34,12 +34,24 @@ META = {
             "restricted, cross-checked with raw SQL dumps of table_perms and, for the database service, of dsns and "
             "dsns_auth (so: a DSN that the store records as restricted enforces the grants for non-administrators); for "
             "the HTTP forms of a row request additionally: the decision equals the one on the same request sent in the "
-            "default format without ?user= (a ?user= naming somebody else never widens what a non-administrator may do).",
+            "default format without ?user= (a ?user= naming somebody else never widens what a non-administrator may do). "
+            "Row requests that carry ?transaction=<id> (transactions.go GetDatabase) are modelled as the code stands "
+            "(rowRequestTx: db.Restricted of the transaction's DSN, Authorized on the URL's DSN) and driven with one database "
+            "file per DSN, so the database a request read or changed is observed: C43_tx_partial covers requests that name the "
+            "transaction's own DSN; C43_tx_foreign_dsn_counterexample is the known finding tx-foreign-dsn. Two overlapping "
+            "GrantPermissions requests for one record (the second completes while the first waits for its body) are compared "
+            "with both sequential orders (known finding grant-overlap-lost-update, C43_grant_lost_update_counterexample).",
     "note": "fixes/C43.patch: Authorized received dsn+\".\"+table and split at the first '.', so a request for "
             "(dsn a.b, table c) was decided as (dsn a, table b.c); the model mirrors the fixed code (separate "
             "parameters); C43_split_counterexample / C43_split_partial describe the old code. Known finding "
             "dsn-key-pipe: the file DSN service keys DSN-level grants by user+\"|\"+dsn, so (a|b, c) and (a, b|c) "
-            "share one entry (C43_dsnkey_counterexample, C43_dsnkey_partial). Trusted: Lean kernel, SQLite text "
+            "share one entry (C43_dsnkey_counterexample, C43_dsnkey_partial). Known finding tx-foreign-dsn: a row request with "
+            "?transaction=<id> is served on the transaction's database whatever DSN its URL names and whoever began it (inside "
+            "the property: rows of a restricted DSN are read/changed without the grant for that DSN). Known finding "
+            "grant-overlap-lost-update: GrantPermissions is an unlocked read / decode body / write-whole-record; judged inside "
+            "the property because the grants and revokes of the property are per permission: a completed revoke of write is "
+            "undone by an overlapping grant of update, a state neither order of the two requests produces (overlaps other than "
+            "read-before / body-after are not driven). Trusted: Lean kernel, SQLite text "
             "equality (exact, bound parameters), uuid uniqueness (a record is updated/deleted by id exactly when it "
             "is the record just read), the harness. Modelled, not verified: the database service variant of the "
             "DSN store (dsn_sqldb.go), strings.ToLower/TrimSpace outside ASCII (permission names in generated "
@@ -58,6 +70,7 @@ REQUIRED = [
     "C43_db_row_history", "C43_db_stale_cache_counterexample", "C43_db_authdsn_iff", "C43_db_dsn_no_cross",
     "C43_row_http_eq", "C43_row_quser_irrelevant", "C43_row_http_pass_needs_grants",
     "C43_row_quser_override_counterexample", "C43_db_row_http_eq", "C43_db_row_http_history",
+    "C43_tx_foreign_dsn_counterexample", "C43_tx_partial", "C43_grant_lost_update_counterexample",
 ]
 
 
